@@ -353,8 +353,8 @@ def constants(tier):
                 ("roles", dict(mc, hist=3, maxh=0))]
         kd = dict(mc, hist=4, compile=["S3"], parse=["D1"], inline_ss=["S1", "S2", "S4"], inline_src=["D1"], vals=["str", "num", "obj"])
     else:
-        mc = dict(hist=7, maxh=2, compile=["S2", "S3", "S4", "SX"], parse=["D1", "D2", "DX"], inline_ss=ALL_SS, inline_src=ALL_SRC, vals=["str", "num", "obj"])
-        gens = [("life", dict(mc, hist=5, maxh=1, inline_ss=RICH + ["SX", "SM"])),
+        mc = dict(hist=6, maxh=2, compile=["S2", "S3", "S4", "SX"], parse=["D1", "D2", "DX"], inline_ss=ALL_SS, inline_src=ALL_SRC, vals=["str", "num", "obj"])
+        gens = [("life", dict(mc, hist=5, maxh=1, inline_ss=RICH + ["SX", "SM"], vals=["str", "num"])),
                 ("life2", dict(mc, hist=5, maxh=2, compile=["S2", "S3"], parse=["D1", "D2"], inline_ss=["S2", "S3"], inline_src=["D1", "D2"], vals=["str", "num"])),
                 ("deep", dict(mc, hist=8, maxh=1, compile=["S2", "S3"], parse=[], inline_ss=RICH + ["SV", "SM"], inline_src=["D1", "D2"])),
                 ("roles", dict(mc, hist=4, maxh=0))]
@@ -415,8 +415,8 @@ def run(res, tier, seed):
     vlib.log("c06: MC %.1fs + GEN, together %.1fs (%s histories, %d distinct)" % (r["wall"], time.time() - t0, " + ".join(str(len(x)) for x in pools), len(hists))); t0 = time.time()
     if not quick:
         rng = random.Random(seed)
-        hists += [random_history(rng, rng.randint(10, 24), mcc) for _ in range(6000)]
-        res.notes["gen"]["random_long"] = {"histories": 6000, "calls_each": "10-24", "seed": seed}
+        hists += [random_history(rng, rng.randint(10, 24), mcc) for _ in range(4000)]
+        res.notes["gen"]["random_long"] = {"histories": 4000, "calls_each": "10-24", "seed": seed}
     cases = [{"id": i + 1, "ops": h} for i, h in enumerate(hists)]
     # ---- RUN
     flavour = "hooks" if quick else "asan"
